@@ -8,7 +8,7 @@ import (
 
 func init() {
 	register("C05", "Decides structural necessary conditions of 'signature verification accepts exactly the valid log signatures': "+
-		"(R1) tls.VerifySignature, for every signature-algorithm code 0..255: only RSA/DSA/ECDSA can reach the accepting return, each only through its own library verifier; in each case the accepting return is unreachable when the hash cannot be computed, when the key is not of the case's key type (mismatch ⇒ error, no verifier call, no panic path through the asserted key), when the DER (r,s) does not parse, when r or s is not positive (tested before the verifier runs), or when the library verifier rejects; trailing bytes after the DER value do not block acceptance; every other return carries a non-nil error; "+
+		"(R1) tls.VerifySignature, for every pair (signature-algorithm code 0..255, dynamic type of the key: *rsa / *dsa / *ecdsa.PublicKey / any other type incl. nil), whichever of the two the code looks at first and also when the pair is compared through a function that maps the key's type to its algorithm (summarised from that function's own type tests): only (RSA,*rsa) (DSA,*dsa) (ECDSA,*ecdsa) can reach the accepting return, each only through its own library verifier; every other pair is refused (mismatch ⇒ error, no call of the declared algorithm's verifier, no panic path through the asserted key; codes outside 1..3 reach no verifier at all); for the three accepted pairs the accepting return is unreachable when the hash cannot be computed, when the DER (r,s) does not parse, when r or s is not positive (tested before the verifier runs), or when the library verifier rejects; trailing bytes after the DER value do not block acceptance; every other return carries a non-nil error; "+
 		"(R2) the verifier's operands are the hash of (declared hash algorithm, the data argument), the asserted key and the carried signature bytes / the (r,s) decoded from them; generateHash maps codes 1..6 to MD5,SHA1,SHA224,SHA256,SHA384,SHA512 and refuses every other code 0..255, hashing exactly the data; "+
 		"(R3) NewSignatureVerifier succeeds exactly for (RSA ∧ (≥2048 bits ∨ opt-in)) ∨ (ECDSA ∧ (P-256 ∨ opt-in)), never for another key type, and stores the key it vetted; "+
 		"(R4) VerifySCTSignature / VerifySTHSignature return the serializer's error or the verdict of tls.VerifySignature over (verifier's key, serialized input of the arguments, the object's own signature) and nothing else; "+
